@@ -122,7 +122,7 @@ def run_scripted(script: Script, jaxpr, consts, *args):
                     raise RuntimeError("while does not terminate")
             script.path = saved
             outs = carry
-        elif name in ("pjit", "jit", "closed_call", "core_call", "remat", "checkpoint"):
+        elif name in ("pjit", "jit", "closed_call", "core_call", "remat", "remat2", "checkpoint"):
             jp, cc = _closed(p.get("jaxpr") or p.get("call_jaxpr"))
             outs = run_scripted(script, jp, cc, *invals)
         elif name == "custom_jvp_call":
